@@ -48,6 +48,8 @@ def gen_case(rng, nmax=5, tmax=12, bias=None, policies=None, disruptions=True, o
         sink = not succs[i]
         has_dem = sink or rng.random() < 0.25
         pt = rng.choice(pols)
+        if pt == 'EBS' and len(preds[i]) not in (0, 1, 2, 4):
+            pt = 'BS'      # echelon position averages over the suppliers: keep the division exact in binary64
         if pt == 'BS':
             pol = ['BS', rng.randint(0, 25)]
         elif pt == 'sS':
@@ -254,7 +256,9 @@ def compare(impl, model, fields=None):
             a, b = RI[i], RM[i]
             for f in NODE_FIELDS:
                 if fields and f not in fields: continue
-                if a[f] != b[f]: diffs.append((t, i, f, a[f], b[f]))
+                if f == 'FR':      # non-dyadic quotient: both sides correctly rounded to binary64
+                    if float(a[f]) != float(b[f]): diffs.append((t, i, f, a[f], b[f]))
+                elif a[f] != b[f]: diffs.append((t, i, f, a[f], b[f]))
             for c in a['cust']:
                 for f in CUST_FIELDS + ['OP']:
                     if fields and f not in fields: continue
